@@ -239,13 +239,19 @@ def c14_runtime(tier, seed):
     t = time.time()
     with Pool(NPROC) as p:
         res = p.map(det_shard, jobs)
-    nondet, errors, settlements, hists = [], [], 0, 0
+    nondet, errors, settlements, hists, wiring = [], [], 0, 0, []
     for idx, rc, logf in res:
         if rc != 0:
             errors.append("harness -det failed on shard %d rc=%d" % (idx, rc)); continue
         for l in open(logf, errors="replace"):
             if l.startswith("NONDET"):
                 d = parse_kv_line(l); d["log"] = logf; nondet.append(d)
+            elif l.startswith("WIRING"):
+                d = parse_kv_line(l)
+                wiring.append(d)
+                if d.get("distinct") != "1" or "error" in d:
+                    nondet.append(dict(hist="?", run="wiring", step="?", op="module.InvokeSetHooks with listeners of six modules, then one hook fired; 40 fresh keepers",
+                                       first=d.get("first", ""), other=d.get("other", d.get("error", "")), log=logf))
             elif l.startswith("HIST"):
                 hists += 1
             elif l.startswith("X es") and " u" in l:
@@ -256,14 +262,15 @@ def c14_runtime(tier, seed):
         logf2 = os.path.join(outdir, "det%02d.second.log" % idx)
         sh("timeout 3000 %s -n %d -ops %d -seed %d -first %d -profile %s -out %s > /dev/null 2>&1" % (
             os.path.join(BUILD, "harness"), n, ops, sd, first, prof, logf2), cwd=BUILD)
-        a = [l for l in open(os.path.join(outdir, "det%02d.log" % idx), errors="replace") if not l.startswith("NONDET")]
+        a = [l for l in open(os.path.join(outdir, "det%02d.log" % idx), errors="replace") if not l.startswith("NONDET") and not l.startswith("WIRING")]
         b = list(open(logf2, errors="replace"))
         cross += 1
         if a != b:
             i = next((k for k in range(min(len(a), len(b))) if a[k] != b[k]), min(len(a), len(b)))
             nondet.append(dict(hist="?", run="second-process", step="?", first=a[i].strip() if i < len(a) else "", other=b[i].strip() if i < len(b) else "", log=logf2))
     log("determinism: %d histories x3 in-process, %d shards re-run in a second process, %d differences, %.1fs" % (hists, cross, len(nondet), time.time() - t))
-    R = dict(nondet=nondet, errors=errors, histories=hists, bidder_transfers=settlements, cross=cross, outdir=outdir)
+    R = dict(nondet=nondet, errors=errors, histories=hists, bidder_transfers=settlements, cross=cross, outdir=outdir,
+             wiring_probes=len(wiring), wiring_order=(wiring[0].get("first") if wiring else ""))
     json.dump(R, open(cp, "w"))
     return R
 
@@ -289,6 +296,8 @@ def special_c14(prop, tier, seed, t0, chk):
     ev = json.load(open(ep))
     ev["coverage"]["runtime_determinism"] = dict(histories_executed_3x_in_process=D["histories"], shards_repeated_in_second_process=D["cross"],
                                                  transfers_to_bidders_compared=D["bidder_transfers"], differences=0,
+                                                 listener_wiring=dict(processes=D.get("wiring_probes", 0), registrations_per_process=40, order_observed=D.get("wiring_order", ""),
+                                                                      what="module.InvokeSetHooks called with the listeners of six named modules on fresh keepers; the order in which a fired hook reaches them must be the same in every execution"),
                                                  compared="every line of the log: results, ordered bank transfers, ordered hook calls, hash of the ordered event stream, complete state and balance dumps")
     ev["wall_s"] = round(time.time() - t0, 1)
     json.dump(ev, open(ep, "w"), indent=1)
